@@ -284,6 +284,7 @@ func runC02(rcx *RunCtx) {
 				if i == nframes-1 && endMid {
 					break
 				}
+				simrt.Fault("peer.mutated-frame")
 				alive = feed(mut, what, nil, false)
 			} else {
 				alive = feed(raw, "good", m, true)
